@@ -459,9 +459,9 @@ pub fn gen(id: &str, tier: &str, rng: &mut Rng, emit: &mut dyn FnMut(Op)) {
             let n = if tier == "thorough" { 60000 } else { 4000 };
             fuzz(&pool, n, rng, emit);
         }
-        "C10" => gen_c10(tier, rng, emit),
-        "C11" => gen_c11(tier, rng, emit),
-        "C12" => gen_c12(tier, rng, emit),
+        "C10" => with_oracle_fuzz(tier, rng, emit, &gen_c10),
+        "C11" => with_oracle_fuzz(tier, rng, emit, &gen_c11),
+        "C12" => with_oracle_fuzz(tier, rng, emit, &gen_c12),
         _ => {
             eprintln!("dist: unknown property {}", id);
             std::process::exit(2);
